@@ -83,9 +83,9 @@ impl CheckContext {
         if failure.property == "STALL" {
             return if self.stall_is_violation { Relevance::Violation } else { Relevance::Inconclusive };
         }
-        if failure.property != self.property && std::env::var("VERIF_REPORT_ANY").is_err() { return Relevance::Other; }
+        if !failure.concerns(&self.property) && std::env::var("VERIF_REPORT_ANY").is_err() { return Relevance::Other; }
         for finding in &self.known {
-            if finding.status == "open" && finding.property == self.property && finding.tags.contains(&failure.tag) {
+            if finding.status == "open" && finding.property == self.property && failure.property == self.property && finding.tags.contains(&failure.tag) {
                 return Relevance::Known(finding.id.clone());
             }
         }
